@@ -16,6 +16,7 @@
    start/end normalised before clamping), F13 (MovingWindow.at: gap slots give NaN, the
    index must lie in the covered range) and count_covered (exact timedelta division). *)
 From Verif Require Export model.Common.
+From Verif Require Import gen.RingBuffer.   (* T-tie: rb_wrap is OrderedRingBuffer.wrap as /repo has it now *)
 
 Definition cell := option Z.
 Definition gap := (Z * Z)%type.            (* Gap(start, end): start inclusive, end exclusive *)
@@ -45,7 +46,7 @@ Definition init_rb (cs : list cell) : rb := mkRB cs [] None.
 (* _timestamp_oldest = newest - (full_time_range - period) *)
 Definition oldest_bound (c n : Z) : Z := n - c + 1.
 
-Definition wrap (c i : Z) : Z := i mod c.
+Definition wrap (c i : Z) : Z := rb_wrap i c.
 
 Fixpoint set_nth {A} (n : nat) (x : A) (l : list A) : list A :=
   match l, n with
